@@ -4979,3 +4979,6 @@ struct ChainRegister {
     register: u8,
     is_temporary: bool,
 }
+
+#[cfg(feature = "verif-hooks")]
+pub mod verif_hooks;
